@@ -47,6 +47,9 @@ fn main() {
             windows = (4..=24).map(Some).collect();
             windows.push(None);
         }
+        // Windows beyond 0x100 bytes (nothing limits a device's configuration space to the size
+        // of the register block in front of it).
+        windows.extend([Some(0xfc), Some(0x100), Some(0x104), Some(0x182)]);
         for wnd in windows {
             let r = c13::bounds_case(tk, wnd);
             ev += r.evals;
